@@ -131,11 +131,12 @@ def run(case):
     return res
 
 
-def known_model_increase_at_optimum(case, clause, detail):
-    # identified by exit route: the 'trust region step gave model increase' error; optimality is judged by C05.optimal, which
-    # this entry does not touch
-    return detail.startswith("flag -2:") and "model increase" in detail
+def known_error_flag_at_optimum(case, clause, detail):
+    # identified by exit route: the 'trust region step gave model increase' error or the 'singular matrix in geometry step'
+    # error; optimality is judged by C05.optimal, which this entry does not touch
+    return (detail.startswith("flag -2:") and "model increase" in detail) or \
+        (detail.startswith("flag -3:") and "Singular matrix encountered in geometry step" in detail)
 
 
 PROFILES = {"solve": Profile("solve", cases, run, quick=6000, thorough=60000, timeout=300)}
-KNOWN = {"model-increase-at-optimum": known_model_increase_at_optimum}
+KNOWN = {"error-flag-at-optimum": known_error_flag_at_optimum}
